@@ -48,7 +48,9 @@ package standard
 
 //@ func (*Service).SignBeaconAttestation
 //@ requires s != nil
-//@ modifies tokroot, db, checkedset
+//@ requires [unlocked] !prelocked && (forall k [48]byte :: !held[k])
+//@ modifies tokroot, db, checkedset, held, prelocked
+//@ ensures [released] !prelocked && (forall k [48]byte :: !held[k])
 //@ ensures [failclosed] (result0 == core.ResultSucceeded) <==> (result1 != nil)
 //@ ensures [exact] result0 == core.ResultSucceeded ==> data != nil && validSig(pkOfAcc(resolved(s, accountName, pubKey)), attRootOf(data), bytes(result1))
 //@ ensures [checked] result0 == core.ResultSucceeded ==> credentials != nil && ckey(credentials.Client, nameOf(walletOf(resolved(s, accountName, pubKey))), nameOf(resolved(s, accountName, pubKey)), ruler.ActionSignBeaconAttestation) in checkedset
@@ -66,7 +68,9 @@ package standard
 
 //@ func (*Service).SignBeaconProposal
 //@ requires s != nil
-//@ modifies tokroot, db, checkedset
+//@ requires [unlocked] !prelocked && (forall k [48]byte :: !held[k])
+//@ modifies tokroot, db, checkedset, held, prelocked
+//@ ensures [released] !prelocked && (forall k [48]byte :: !held[k])
 //@ ensures [failclosed] (result0 == core.ResultSucceeded) <==> (result1 != nil)
 //@ ensures [exact] result0 == core.ResultSucceeded ==> data != nil && validSig(pkOfAcc(resolved(s, accountName, pubKey)), propRootOf(data), bytes(result1))
 //@ ensures [checked] result0 == core.ResultSucceeded ==> credentials != nil && ckey(credentials.Client, nameOf(walletOf(resolved(s, accountName, pubKey))), nameOf(resolved(s, accountName, pubKey)), ruler.ActionSignBeaconProposal) in checkedset
@@ -84,7 +88,9 @@ package standard
 
 //@ func (*Service).SignGeneric
 //@ requires s != nil
-//@ modifies tokroot, db, checkedset
+//@ requires [unlocked] !prelocked && (forall k [48]byte :: !held[k])
+//@ modifies tokroot, db, checkedset, held, prelocked
+//@ ensures [released] !prelocked && (forall k [48]byte :: !held[k])
 //@ ensures [failclosed] (result0 == core.ResultSucceeded) <==> (result1 != nil)
 //@ ensures [exact] result0 == core.ResultSucceeded ==> data != nil && validSig(pkOfAcc(resolved(s, accountName, pubKey)), genRootOf(data), bytes(result1))
 //@ ensures [notslashable] result0 == core.ResultSucceeded ==> prefix4(data.Domain) != ATT && prefix4(data.Domain) != PROP
@@ -165,7 +171,9 @@ package standard
 //@ func (*Service).SignBeaconAttestations
 //@ requires s != nil
 //@ requires [lens] len(accountNames) <= len(data) && len(pubKeys) <= len(data)
-//@ modifies tokroot, db, checkedset
+//@ requires [unlocked] !prelocked && (forall k [48]byte :: !held[k])
+//@ modifies tokroot, db, checkedset, held, prelocked
+//@ ensures [released] !prelocked && (forall k [48]byte :: !held[k])
 //@ ensures [len] len(result0) >= 1 && (len(result1) == 0 || len(result1) == len(result0)) && (len(data) > 0 ==> len(result0) == len(data))
 //@ ensures [failclosed] forall i int :: 0 <= i && i < len(result0) ==> ((result0[i] == core.ResultSucceeded) <==> (i < len(result1) && result1[i] != nil))
 //@ ensures [exact] forall i int :: 0 <= i && i < len(result0) && result0[i] == core.ResultSucceeded ==> i < len(data) && validSig(pkOfAcc(resolved(s, nameAt(accountNames, i), keyAt(pubKeys, i))), attRootOf(data[i]), bytes(result1[i]))
@@ -238,7 +246,9 @@ package standard
 //@ func (*Service).Multisign
 //@ requires s != nil
 //@ requires [lens] len(accountNames) <= len(data) && len(pubKeys) <= len(data)
-//@ modifies tokroot, db, checkedset
+//@ requires [unlocked] !prelocked && (forall k [48]byte :: !held[k])
+//@ modifies tokroot, db, checkedset, held, prelocked
+//@ ensures [released] !prelocked && (forall k [48]byte :: !held[k])
 //@ ensures [len] len(result0) >= 1 && (len(result1) == 0 || len(result1) == len(result0)) && (len(data) > 0 ==> len(result0) == len(data))
 //@ ensures [failclosed] forall i int :: 0 <= i && i < len(result0) ==> ((result0[i] == core.ResultSucceeded) <==> (i < len(result1) && result1[i] != nil))
 //@ ensures [exact] forall i int :: 0 <= i && i < len(result0) && result0[i] == core.ResultSucceeded ==> i < len(data) && validSig(pkOfAcc(resolved(s, nameAt(accountNames, i), keyAt(pubKeys, i))), genRootOf(data[i]), bytes(result1[i]))
